@@ -23,6 +23,7 @@ type PropSpec struct {
 	// obligations are selected by clause tags.
 	AutoKinds bool
 	InvariantMethods bool // also verify every method carrying a type invariant
+	Prepare func(w *World) []string // adds generated contracts, returns extra roots
 	Note      string
 	Extra     func(w *World, run *PropRun)
 }
@@ -127,6 +128,9 @@ func runCheck(args []string) int {
 	todo := append([]string{}, spec.Roots...)
 	if spec.InvariantMethods {
 		todo = append(todo, w.invariantMethods...)
+	}
+	if spec.Prepare != nil {
+		todo = append(todo, spec.Prepare(w)...)
 	}
 	if r := os.Getenv("MQVC_ROOTS"); r != "" {
 		todo = strings.Split(r, ",")
